@@ -393,6 +393,7 @@ OVF_DISCHARGED = {
 
 def rule_ovf(c, prog, g, dreach):
     R = "C13.ovf"
+    bounds.PROG = prog
     c.rule(R, "every overflow-checked arithmetic operation (MIR `Assert(Overflow(..))`: + - * << >> unary -) in code reachable from a decoder entry point is enumerated; it is discharged by computation (constant shift amount below the width; negation of a value masked to a non-negative constant; constant operands) or by a confirmed table entry with the bound — otherwise a wire value can make a debug / overflow-checked build panic")
     n = 0
     for fn in lib_named(prog, dreach):
@@ -437,6 +438,14 @@ def rule_ovf(c, prog, g, dreach):
                 arith = [st for st in same if str(st.get("rk", "")).endswith("WithOverflow")]
                 if arith and all(o.get("k") == "const" for o in arith[0]["ops"]):
                     why = "CONST: both operands are constants"
+            if why is None and op in ("Add", "Mul") and fn.body is not None:
+                # a polynomial in counters of constant-length loops: its maximum is a small known number
+                for hn in core.walk_fn(fn):
+                    if hn.get("k") in ("Binary", "AssignOp") and hn.get("sp") == sp:
+                        r = bounds.counter_max(fn, hn)
+                        if r is not None and r[1] < 2 ** 31:
+                            why = f"COUNTER: `{r[0]}` over constant-length loops is at most {r[1]}"
+                        break
             if why is None:
                 why = OVF_DISCHARGED.get((fn.path, op, "*"))
             inst = f"{fn.path}|overflow:{op}"
